@@ -111,6 +111,15 @@ REREAD = "read-again-after-first-result-changed"      # the same file read twice
 class Ctx:
     def __init__(self, mon, tmp):
         self.mon, self.tmp = mon, tmp
+        self.collecting = None  # list: monitor firings are held back (to be attributed after a control experiment)
+        self.fired = 0
+
+    def fail(self, key, what, wit):
+        if self.collecting is not None:
+            self.collecting.append((key, what, wit))
+        else:
+            self.fired += 1
+            self.mon.fail(key, what, wit)
 
     def source(self, rng, cls, **kw):
         net, info = O.gen_net(rng, cls, json_only=True, **kw)
@@ -158,11 +167,11 @@ class Ctx:
             mon.nontrivial((reader, trigger in (REWRITTEN, REREAD) and trigger, variant, exp.cls, sorted(map(repr, exp.inc)), len(exp.nodes), len(exp.edges)))
         d = O.diff(exp, got, clauses)
         if d and stale is not None and not O.diff(stale, got, clauses):
-            mon.fail(f"{reader}|{trigger}|stale-result", f"{reader} [{variant}]: the read after rewriting the path returned the network written there before: {d[0][0]}: {d[0][1]}",
+            self.fail(f"{reader}|{trigger}|stale-result", f"{reader} [{variant}]: the read after rewriting the path returned the network written there before: {d[0][0]}: {d[0][1]}",
                      self.witness(infos, files, f"read back: {got.brief()}"))
             return
         for clause, detail in d:
-            mon.fail(f"{reader}|{trigger}|{clause}", f"{reader} [{variant}]: {clause}: {detail}", self.witness(infos, files, f"read back: {got.brief()}"))
+            self.fail(f"{reader}|{trigger}|{clause}", f"{reader} [{variant}]: {clause}: {detail}", self.witness(infos, files, f"read back: {got.brief()}"))
 
     def guarded(self, name, trigger, fn, variant, infos, files=()):
         try:
@@ -171,21 +180,30 @@ class Ctx:
             if O.is_watchdog(exc):
                 raise
             self.mon.ev()
-            self.mon.fail(f"{name}|{trigger}|raises", f"{name} [{variant}] raised {type(exc).__name__}: {exc}", self.witness(infos, files))
+            self.fail(f"{name}|{trigger}|raises", f"{name} [{variant}] raised {type(exc).__name__}: {exc}", self.witness(infos, files() if callable(files) else files))
             return None
 
-    def session(self, rng, writer, reader, trigger, a, b, write, read, check, variant, files, differs):
+    def session(self, rng, writer, reader, trigger, a, b, write, read, check, variant, files, differs, relocate):
         """write(A) read  [deface the result, read again]  write(B) to the same path, read.
 
-        write(item) / read() call the library; check(back, item, trigger, stale_item) compares.  `a`, `b` are whatever the case
-        writes (a (net, info) pair or a collection); differs = the two must not be indistinguishable to the comparison."""
+        write(item) / read() call the library on the case's current location; check(back, item, trigger, stale_item) compares; files() lists
+        the current location's files; relocate() moves the location to a fresh, never used path.  `a`, `b` are whatever the case writes
+        (a (net, info) pair or a collection).  The session ends at the first step that fires.  A firing of the rewrite step is attributed by a
+        control experiment: B written to and read from a fresh path - if that fails as well, B does not survive the format on its own and
+        the control's firings are reported under the ordinary trigger class instead."""
         infos_a, infos_b = _infos(a), _infos(b)
-        if self.guarded(writer, trigger, lambda: (write(a), True)[1], variant, infos_a) is None:
+
+        def step(item, infos, trig, stale, do_write=True):
+            if do_write and self.guarded(writer, trig, lambda: (write(item), True)[1], variant, infos) is None:
+                return
+            back = self.guarded(reader, trig, read, variant, infos, files)
+            if back is not None:
+                check(back, item, trig, stale)
+            return back
+
+        back = step(a, infos_a, trigger, None)
+        if self.fired or back is None:
             return
-        back = self.guarded(reader, trigger, read, variant, infos_a, files)
-        if back is None:
-            return
-        check(back, a, trigger, None)
         if rng.random() < 0.35:
             try:
                 for x in (back.values() if isinstance(back, dict) else [back]):
@@ -197,17 +215,39 @@ class Ctx:
                 ok = False
             if ok:
                 self.mon.note(f"reread:{reader}")
-                again = self.guarded(reader, REREAD, read, variant, infos_a, files)
-                if again is not None:
-                    check(again, a, REREAD, None)
+                step(a, infos_a, REREAD, None, do_write=False)  # the same file passed a moment ago: whatever fires now is about reading twice
+                if self.fired:
+                    return
         if b is None:
             return
         self.mon.note(f"rewrite:{reader}:" + ("distinct" if differs else "same-content"))
-        if self.guarded(writer, REWRITTEN, lambda: (write(b), True)[1], variant, infos_b) is None:
-            return
-        back = self.guarded(reader, REWRITTEN, read, variant, infos_b, files)
-        if back is not None:
-            check(back, b, REWRITTEN, a)
+        self.collecting = held = []
+        step(b, infos_b, REWRITTEN, a)
+        if held:
+            self.collecting = control = []
+            relocate()
+            step(b, infos_b, trigger, None)
+            held = control or held
+            self.mon.note("rewrite:control-experiments")
+        self.collecting = None
+        for key, what, wit in held:
+            self.fail(key, what, wit)
+
+
+class Loc:
+    """Where a case writes: <dir>/<name>.  relocate() moves to a fresh, never used directory (control experiment)."""
+
+    def __init__(self, tmp, name):
+        self.tmp, self.dir, self.name, self.n = tmp, tmp, name, 0
+
+    @property
+    def path(self):
+        return os.path.join(self.dir, self.name)
+
+    def relocate(self):
+        self.n += 1
+        self.dir = os.path.join(self.tmp, f"control{self.n}")
+        os.makedirs(self.dir)
 
 
 def _infos(item):
@@ -240,14 +280,14 @@ def case_hif(c, idx, rng):
     if any(O.collides([nmap(x) for x in i["src"].nodes]) or O.collides([emap(x) for x in i["src"].edges]) for i in (a[1], b[1])):
         nt, nmap, et, emap = None, O.ident, None, O.ident
     variant = f"nodetype={_tn(nt)} edgetype={_tn(et)}"
-    path = os.path.join(c.tmp, "net.hif.json")
+    loc = Loc(c.tmp, "net.hif.json")
 
     def check(back, item, trig, stale):
-        c.compare("read_hif", cls if trig == cls else trig, O.expected(item[1]["src"], nmap, emap), back, O.ALL, variant, [item[1]], [path],
+        c.compare("read_hif", cls if trig == cls else trig, O.expected(item[1]["src"], nmap, emap), back, O.ALL, variant, [item[1]], [loc.path],
                   stale=O.expected(stale[1]["src"], nmap, emap) if stale else None)
 
-    c.session(rng, "write_hif", "read_hif", cls, a, b, lambda it: xgi.write_hif(it[0], path), lambda: xgi.read_hif(path, nodetype=nt, edgetype=et),
-              check, variant, [path], _differ(a[1], b[1]))
+    c.session(rng, "write_hif", "read_hif", cls, a, b, lambda it: xgi.write_hif(it[0], loc.path), lambda: xgi.read_hif(loc.path, nodetype=nt, edgetype=et),
+              check, variant, lambda: [loc.path], _differ(a[1], b[1]), loc.relocate)
     if idx % 100 == 0:
         c.mon.sample(a[1]["hist"])
 
@@ -288,14 +328,16 @@ def case_hif_collection(c, idx, rng):
     kind, cname, names = a["kind"], a["cname"], a["names"]
     c.mon.note(f"hif-collection:{kind}")
     variant = f"{kind} of {len(names)} collection_name={cname!r}"
-    main = os.path.join(c.tmp, f"{cname}_collection_information.json")
-    files = [main] + [os.path.join(c.tmp, f"{cname}_{nm}.json") for nm in names]
+    loc = Loc(c.tmp, f"{cname}_collection_information.json")
+
+    def files():
+        return [loc.path] + [os.path.join(loc.dir, f"{cname}_{nm}.json") for nm in names]
 
     def check(back, item, trig, stale):
-        _compare_collection(c, "read_hif_collection", kind, trig, back, names, _infos(item), O.ALL, O.ident, O.ident, variant, files, _infos(stale))
+        _compare_collection(c, "read_hif_collection", kind, trig, back, names, _infos(item), O.ALL, O.ident, O.ident, variant, files(), _infos(stale))
 
-    c.session(rng, "write_hif_collection", "read_hif_collection", kind, a, b, lambda it: xgi.write_hif_collection(it["arg"], c.tmp, collection_name=cname),
-              lambda: xgi.read_hif_collection(main), check, variant, files, b is not None and _coll_differs(a, b))
+    c.session(rng, "write_hif_collection", "read_hif_collection", kind, a, b, lambda it: xgi.write_hif_collection(it["arg"], loc.dir, collection_name=cname),
+              lambda: xgi.read_hif_collection(loc.path), check, variant, files, b is not None and _coll_differs(a, b), loc.relocate)
 
 
 def _compare_collection(c, reader, kind, trig, back, names, infos, clauses, nmap, emap, variant, files, stale_infos):
@@ -303,7 +345,7 @@ def _compare_collection(c, reader, kind, trig, back, names, infos, clauses, nmap
     want = [str(nm) for nm in names]
     second = trig in (REWRITTEN, REREAD)
     if not isinstance(back, dict) or sorted(back) != sorted(want):
-        c.mon.fail(f"{reader}|{trig if second else kind}|members-of-collection", f"{reader} [{variant}]: expected the datasets {want}, got {sorted(back) if isinstance(back, dict) else type(back).__name__}",
+        c.fail(f"{reader}|{trig if second else kind}|members-of-collection", f"{reader} [{variant}]: expected the datasets {want}, got {sorted(back) if isinstance(back, dict) else type(back).__name__}",
                    c.witness(infos, files[:1]))
         return
     for k, (nm, info) in enumerate(zip(want, infos)):
@@ -324,14 +366,14 @@ def case_json(c, idx, rng):
     nt, nmap = O.casts(rng, a[1]["src"].nodes + b[1]["src"].nodes, c.mon)
     et, emap = O.casts(rng, a[1]["src"].edges + b[1]["src"].edges, c.mon)
     variant = f"nodetype={_tn(nt)} edgetype={_tn(et)}"
-    path = os.path.join(c.tmp, "net.json")
+    loc = Loc(c.tmp, "net.json")
 
     def check(back, item, trig, stale):
-        c.compare("read_json", trig, O.expected(item[1]["src"], nmap, emap), back, O.ALL, variant, [item[1]], [path],
+        c.compare("read_json", trig, O.expected(item[1]["src"], nmap, emap), back, O.ALL, variant, [item[1]], [loc.path],
                   stale=O.expected(stale[1]["src"], nmap, emap) if stale else None)
 
-    c.session(rng, "write_json", "read_json", "Hypergraph", a, b, lambda it: xgi.write_json(it[0], path), lambda: xgi.read_json(path, nodetype=nt, edgetype=et),
-              check, variant, [path], _differ(a[1], b[1]))
+    c.session(rng, "write_json", "read_json", "Hypergraph", a, b, lambda it: xgi.write_json(it[0], loc.path), lambda: xgi.read_json(loc.path, nodetype=nt, edgetype=et),
+              check, variant, lambda: [loc.path], _differ(a[1], b[1]), loc.relocate)
 
 
 def _json_collide(c, rng):
@@ -375,14 +417,16 @@ def case_json_collection(c, idx, rng):
     et, emap = O.casts(rng, [e for i in both for e in i["src"].edges], c.mon)
     variant = f"{kind} of {len(names)} collection_name={cname!r} nodetype={_tn(nt)} edgetype={_tn(et)}"
     pre = cname + "_" if cname else ""
-    main = os.path.join(c.tmp, f"{pre}collection_information.json")
-    files = [main] + [os.path.join(c.tmp, f"{pre}{nm}.json") for nm in names]
+    loc = Loc(c.tmp, f"{pre}collection_information.json")
+
+    def files():
+        return [loc.path] + [os.path.join(loc.dir, f"{pre}{nm}.json") for nm in names]
 
     def check(back, item, trig, stale):
-        _compare_collection(c, "read_json", kind, trig, back, names, _infos(item), O.ALL, nmap, emap, variant, files, _infos(stale))
+        _compare_collection(c, "read_json", kind, trig, back, names, _infos(item), O.ALL, nmap, emap, variant, files(), _infos(stale))
 
-    c.session(rng, "write_json", "read_json", kind, a, b, lambda it: xgi.write_json(it["arg"], c.tmp, collection_name=cname),
-              lambda: xgi.read_json(main, nodetype=nt, edgetype=et), check, variant, files, b is not None and _coll_differs(a, b))
+    c.session(rng, "write_json", "read_json", kind, a, b, lambda it: xgi.write_json(it["arg"], loc.dir, collection_name=cname),
+              lambda: xgi.read_json(loc.path, nodetype=nt, edgetype=et), check, variant, files, b is not None and _coll_differs(a, b), loc.relocate)
 
 
 # ---- text formats -------------------------------------------------------------------------------
@@ -452,12 +496,12 @@ def case_edgelist(c, idx, rng):
     rd = None if (d in (" ", "\t") and rng.random() < 0.3) else d
     into = rng.choice((None, "Hypergraph", "Hypergraph()", cls))
     variant = f"delimiter={d!r} read-delimiter={rd!r} nodetype={_tn(nt)} create_using={into} encoding={enc!r} comments={cm!r}"
-    path = os.path.join(c.tmp, "edges.txt")
+    loc = Loc(c.tmp, "edges.txt")
     wkw = {} if (d == " " and rng.random() < 0.5) else {"delimiter": d}
 
     def read():
         rkw = {} if into is None else {"create_using": getattr(xgi, into[:-2])() if into.endswith("()") else getattr(xgi, into)}
-        return xgi.read_edgelist(path, delimiter=rd, nodetype=nt, **rkw, **ekw, **ckw)
+        return xgi.read_edgelist(loc.path, delimiter=rd, nodetype=nt, **rkw, **ekw, **ckw)
 
     def check(back, item, trig, stale):
         src = item[1]["src"]
@@ -468,18 +512,18 @@ def case_edgelist(c, idx, rng):
             fam_s = {frozenset(map(nmap, m)) for m in src.mem.values()}
             fam_g = set(got.mem.values())
             if fam_s != fam_g or len(got.mem) != len(fam_g):
-                c.mon.fail(f"read_edgelist|{'SimplicialComplex-into-SimplicialComplex' if trig == cls else trig}|simplices", f"[{variant}] family of member sets differs: {O._sd(fam_s, fam_g)}",
-                           c.witness([item[1]], [path], f"read back: {got.brief()}"))
+                c.fail(f"read_edgelist|{'SimplicialComplex-into-SimplicialComplex' if trig == cls else trig}|simplices", f"[{variant}] family of member sets differs: {O._sd(fam_s, fam_g)}",
+                           c.witness([item[1]], [loc.path], f"read back: {got.brief()}"))
             return
 
         def exp(o):
             epos = {e: i for i, e in enumerate(o.edges)}
             return O.expected(o, nmap, epos.__getitem__, cls="Hypergraph")
 
-        c.compare("read_edgelist", trig, exp(src), back, O.INC, variant, [item[1]], [path], count=f"read_edgelist:{cls}", stale=exp(stale[1]["src"]) if stale else None)
+        c.compare("read_edgelist", trig, exp(src), back, O.INC, variant, [item[1]], [loc.path], count=f"read_edgelist:{cls}", stale=exp(stale[1]["src"]) if stale else None)
 
-    c.session(rng, "write_edgelist", "read_edgelist", cls, a, b, lambda it: xgi.write_edgelist(it[0], path, **wkw, **ekw), read, check, variant, [path],
-              _differ(a[1], b[1]))
+    c.session(rng, "write_edgelist", "read_edgelist", cls, a, b, lambda it: xgi.write_edgelist(it[0], loc.path, **wkw, **ekw), read, check, variant, lambda: [loc.path],
+              _differ(a[1], b[1]), loc.relocate)
 
 
 def case_bipartite(c, idx, rng):
@@ -501,13 +545,13 @@ def case_bipartite(c, idx, rng):
     rd = None if (d in (" ", "\t") and rng.random() < 0.3) else d
     into = rng.choice((None, None, "Hypergraph", "Hypergraph()"))
     variant = f"delimiter={d!r} read-delimiter={rd!r} nodetype={_tn(kw['nodetype'])} edgetype={_tn(kw['edgetype'])} dual={dual} create_using={into} encoding={enc!r} comments={cm!r}"
-    path = os.path.join(c.tmp, "bip.txt")
+    loc = Loc(c.tmp, "bip.txt")
     wkw = {} if (d == " " and rng.random() < 0.5) else {"delimiter": d}
     base = "dual" if dual else cls
 
     def read():
         rkw = {} if into is None else {"create_using": getattr(xgi, into[:-2])() if into.endswith("()") else getattr(xgi, into)}
-        return xgi.read_bipartite_edgelist(path, delimiter=rd, dual=dual, **kw, **rkw, **ekw, **ckw)
+        return xgi.read_bipartite_edgelist(loc.path, delimiter=rd, dual=dual, **kw, **rkw, **ekw, **ckw)
 
     def exp(o):
         e = O.expected(o, m1, m2, cls="Hypergraph")
@@ -517,11 +561,11 @@ def case_bipartite(c, idx, rng):
         return e
 
     def check(back, item, trig, stale):
-        c.compare("read_bipartite_edgelist", trig, exp(item[1]["src"]), back, O.INC, variant, [item[1]], [path], count=f"read_bipartite_edgelist:{cls}",
+        c.compare("read_bipartite_edgelist", trig, exp(item[1]["src"]), back, O.INC, variant, [item[1]], [loc.path], count=f"read_bipartite_edgelist:{cls}",
                   stale=exp(stale[1]["src"]) if stale else None)
 
-    c.session(rng, "write_bipartite_edgelist", "read_bipartite_edgelist", base, a, b, lambda it: xgi.write_bipartite_edgelist(it[0], path, **wkw, **ekw), read, check,
-              variant, [path], _differ(a[1], b[1]))
+    c.session(rng, "write_bipartite_edgelist", "read_bipartite_edgelist", base, a, b, lambda it: xgi.write_bipartite_edgelist(it[0], loc.path, **wkw, **ekw), read, check,
+              variant, lambda: [loc.path], _differ(a[1], b[1]), loc.relocate)
 
 
 def _shaped(c, rng, cls, shape):
@@ -582,7 +626,7 @@ def case_incidence(c, idx, rng):
     a = _matrix_net(c, rng, cls, (SHAPES + ("general", "general"))[(idx // 2) % 6])
     if a is None:
         return
-    b = _matrix_net(c, rng, cls, rng.choice(SHAPES + ("general", "general")))  # whatever shape: the path is what is reused
+    b = _matrix_net(c, rng, cls, rng.choice(SHAPES + ("general", "general")))  # whatever shape: the loc.path is what is reused
     src = a[1]["src"]
     shape = _shape_of(src)  # name the trigger class by what the file looks like
     c.mon.note(f"incidence:shape:{shape}")
@@ -591,13 +635,13 @@ def case_incidence(c, idx, rng):
     rd = None if (d in (" ", "\t") and rng.random() < 0.3) else d
     into = rng.choice((None, None, "Hypergraph", "Hypergraph()"))
     variant = f"{len(src.nodes)} x {len(src.edges)} delimiter={d!r} read-delimiter={rd!r} create_using={into} encoding={enc!r} comments={cm!r}"
-    path = os.path.join(c.tmp, "inc.txt")
+    loc = Loc(c.tmp, "inc.txt")
     wkw = {} if (d == " " and rng.random() < 0.5) else {"delimiter": d}
     trig = {"single-entry": "single-row"}.get(shape, shape if shape != "general" else cls)
 
     def read():
         rkw = {} if into is None else {"create_using": getattr(xgi, into[:-2])() if into.endswith("()") else getattr(xgi, into)}
-        return xgi.read_incidence_matrix(path, delimiter=rd, **rkw, **ekw, **ckw)
+        return xgi.read_incidence_matrix(loc.path, delimiter=rd, **rkw, **ekw, **ckw)
 
     def exp(o):
         npos = {v: i for i, v in enumerate(o.nodes)}
@@ -605,11 +649,14 @@ def case_incidence(c, idx, rng):
         return O.expected(o, npos.__getitem__, epos.__getitem__, cls="Hypergraph")
 
     def check(back, item, t, stale):
-        c.compare("read_incidence_matrix", t, exp(item[1]["src"]), back, O.INC, variant, [item[1]], [path], count=f"read_incidence_matrix:{cls}",
+        if t not in (REWRITTEN, REREAD):  # (the control experiment of a rewrite step reads B, whose file may have another shape than A's)
+            sh = _shape_of(item[1]["src"])
+            t = {"single-entry": "single-row"}.get(sh, sh if sh != "general" else cls)
+        c.compare("read_incidence_matrix", t, exp(item[1]["src"]), back, O.INC, variant, [item[1]], [loc.path], count=f"read_incidence_matrix:{cls}",
                   stale=exp(stale[1]["src"]) if stale else None)
 
-    c.session(rng, "write_incidence_matrix", "read_incidence_matrix", trig, a, b, lambda it: xgi.write_incidence_matrix(it[0], path, **wkw, **ekw), read, check,
-              variant, [path], b is not None and exp(a[1]["src"]).inc != exp(b[1]["src"]).inc)
+    c.session(rng, "write_incidence_matrix", "read_incidence_matrix", trig, a, b, lambda it: xgi.write_incidence_matrix(it[0], loc.path, **wkw, **ekw), read, check,
+              variant, lambda: [loc.path], b is not None and exp(a[1]["src"]).inc != exp(b[1]["src"]).inc, loc.relocate)
 
 
 CASES = {
